@@ -388,3 +388,26 @@ PROPS["C04"] = dict(
                                                               "stale_alignment_probes": 5, "cionly_cases": 10}),
     assumptions=[A_SAN, A_GEN, "senone scores re-computed by the harness through acmod_score with compallsen equal those of the second pass (no active-set dependence)"],
 )
+
+PROPS["C02"] = dict(
+    title="With pruning disabled the search returns the true Viterbi optimum", level="exploration",
+    technique="runtime reference-model oracle: an independent unpruned, unshared token-passing Viterbi (harness/h_viterbi.c) over the loaded grammar and the "
+              "utterance's own frame scores, compared with the score and segmentation the real search reports; real code under ASan/UBSan",
+    level_text="exploration: generated scenarios (random FSG automata with nulls, loops, branching into and out of states, explicit alternates; right-linear "
+               "and slot JSGF incl. word loops; alignment text; vocabularies with one-, two- and many-phone words; fillers and alternates on/off; "
+               "lw/wip/pip/silprob/fillprob varied; en-us and fr-fr; triphone and cionly; speech excerpts of 5-400 frames and adversarial signals; all "
+               "calling patterns). Open beams (70%): reported score == oracle optimum over all legal alignments ending in the final state at the last "
+               "frame (both directions: not lower, not higher), no result iff no legal alignment exists, segmentation reaches the last frame, and the "
+               "reported words and boundaries admit an alignment of exactly that score. Default / narrow beams: reported score <= optimum at the "
+               "frame where the reported path ends, and <= the best alignment of the reported segmentation.",
+    level_note="'beam 0' is still a finite beam of 524288 units in the implementation: a second oracle pass that drops everything within 60000 units of that "
+               "residual beam must reach the same optimum, otherwise the case is inconclusive; only 3-state models and one-phone fillers are in the "
+               "oracle's domain (both bundled models); the scoring conventions of a 'legal alignment' are listed in DESIGN.md section C02",
+    rule="one case = one scenario; non-trivial = oracle and real search both ran; distinct = case index.",
+    stages=[dict(harness="h_viterbi", flavor="asan", quick=160, thorough=2500), dict(harness="h_viterbi", flavor="fast", quick=400, thorough=10000, name="h_viterbi_fast")],
+    floor=dict(min_evaluations=300, min_distinct=300, counters={"oracle_runs": 300, "exact_optimum_matches": 150, "agreed_no_alignment_exists": 5, "pruned_scores_not_above_optimum": 40,
+                                                              "segmentations_achieve_reported_score": 150, "grammars_with_null_arcs": 40, "grammars_with_one_phone_words": 20,
+                                                              "grammars_with_word_loops": 30, "grammars_with_fillers": 100, "grammars_without_fillers": 20, "cionly_cases": 10}),
+    assumptions=[A_SAN, A_GEN, "senone scores re-computed by the harness through acmod_score with compallsen equal those the search used",
+                 "the grammar searched is read back from the loaded FSG (that loading preserves the language is C13/C05's subject)"],
+)
